@@ -74,14 +74,28 @@ theorem meanPass_get (rows cols : Nat) (excludes : List F) (g : Rows F) (y x : I
   have h2 : xn < cols := by omega
   simp [Rows.get, meanPass, h1, h2]
 
+/-- the generated fact about the wrapper `mean()`: the float raster is fed through the one-pass function
+    `passes` times (`for _ in range(passes): out = _mean(out, excludes)`), the loop sits in `mean()` itself, the
+    iterated value is what is returned, and the glue `_mean` calls the backend function selected for the raster exactly
+    once per call, with (data, excludes), outside any control flow.  (A wrapper that hands `passes` to a backend instead -- to run the passes
+    inside one `map_overlap`, say -- makes this `false`, and `mean_passes` below no longer checks.) -/
+theorem mean_wrapper_iterates : mean_iterates_passes = true := rfl
+
+/-- the model of `mean()` is the iteration of the one-pass operator (consumes `mean_wrapper_iterates`) -/
+theorem meanN_eq_iter (rows cols : Nat) (excludes : List F) (p : Nat) (g : Rows F) :
+    meanN rows cols excludes p g = meanIter rows cols excludes p g := by
+  simp only [meanN, mean_wrapper_iterates, if_true]
+
 /-- **mean_spec (passes).** `mean(agg, passes)` is the one-pass operator applied `passes` times -/
 theorem mean_passes (rows cols : Nat) (excludes : List F) (p : Nat) (g : Rows F) (y x : Int)
     (hy : 0 ≤ y) (hy' : y < rows) (hx : 0 ≤ x) (hx' : x < cols) :
     (meanN rows cols excludes (p + 1) g).get y x =
-      meanCell (meanN rows cols excludes p g).get rows cols excludes y x :=
-  meanPass_get rows cols excludes _ y x hy hy' hx hx'
+      meanCell (meanN rows cols excludes p g).get rows cols excludes y x := by
+  rw [meanN_eq_iter, meanN_eq_iter]
+  exact meanPass_get rows cols excludes _ y x hy hy' hx hx'
 
-theorem mean_zero_passes (rows cols : Nat) (excludes : List F) (g : Rows F) : meanN rows cols excludes 0 g = g := rfl
+theorem mean_zero_passes (rows cols : Nat) (excludes : List F) (g : Rows F) : meanN rows cols excludes 0 g = g := by
+  rw [meanN_eq_iter]; rfl
 
 /-- **excluded_pass_through.** a cell holding an excluded value keeps it through any number of passes -/
 theorem excluded_pass_through (rows cols : Nat) (excludes : List F) (g : Rows F) (y x : Int)
